@@ -402,8 +402,11 @@ Definition region_plain (q : req) : bool :=
                                 | Some _ => false end) (q_funcs q)
   | Err _ => false
   end.
-(* selection by the value of a zipped coordinate (C19-zipped-coordinate-not-selectable): kind 1 *)
-Definition region_zsel (q : req) : bool := negb (q_kind q =? 0).
+(* selection by the value of a zipped coordinate (C19-zipped-coordinate-not-selectable): a kind 1 case in
+   which some data variable carries a zipped (multi-source) coordinate, i.e. a selection is attempted *)
+Definition region_zsel (q : req) : bool :=
+  negb (q_kind q =? 0)
+  && match model_obs q with Ok d => negb (is_nil (o_sels d)) | Err _ => false end.
 
 Definition known_region (c : case) : bool :=
   match resolve c with
